@@ -9,9 +9,9 @@ package witness
 //@ guarded [C14,C15] witness.logState.mu: checkpoint, nextEntry, mirrorCheckpoint
 
 //@ func witness.(*Witness).stateForOrigin props C14 C15
-//@   requires w != nil
+//@   requires w != nil && !held(&w.logsMu)
 //@   defines ret1 ==> ret0 == stateOf(w, origin) && ret0 != nil
-//@   ensures !held(&w.logsMu) || old(held(&w.logsMu))
+//@   ensures !held(&w.logsMu)
 
 //@ func witness.(*Witness).updateCheckpoint props C14
 //@   requires w != nil && w.c != nil && submitted != nil && !held(&w.logsMu) && !held(&stateOf(w, origin).mu)
@@ -30,6 +30,7 @@ package witness
 
 //@ func witness.(*Witness).processAddCheckpointRequest props C14
 //@   requires w != nil && w.c != nil && !held(&w.logsMu)
+//@   requires forall o string :: !held(&stateOf(w, o).mu)
 //@   call witness.(*Witness).updateCheckpoint requires [C14] log-signature-verified: openedBy(n, noteBytes, v) && c == ckptOf(n.Text) && c.Extension == ""
 //@   call witness.(*Witness).updateCheckpoint requires [C14] interpreted-values: c_origin == c.Origin && c_newSize == c.N && c_newHash == c.Hash && c_oldSize == oldSize && c_submitted == n && c_proof == proof && oldSize >= 0
 //@   returns [C14] cosig-only-from-update: ret1 != nil ==> isnilb(ret0) || true
